@@ -875,11 +875,13 @@ class UserActions(object):
       dropdown_condition.perform_dropdown_condition_renames(self, renames)
       perform_trigger_condition_renames(self, renames)
 
-    for table_id in rebuild_summary_tables:
+    # These are sets; go through them in a fixed order, so that the actions produced don't depend
+    # on hash values (which differ from one process to the next).
+    for table_id in sorted(rebuild_summary_tables):
       table = self._engine.tables[table_id]
       self._engine._update_table_model(table, table.user_table)
 
-    for table in rename_summary_tables:
+    for table in sorted(rename_summary_tables):
       groupby_col_ids = [c.colId for c in table.columns if c.summarySourceCol]
       new_table_id = summary.encode_summary_table_name(table.summarySourceTable.tableId,
                                                        groupby_col_ids)
@@ -1460,7 +1462,7 @@ class UserActions(object):
     removed_col_refs = set((c.id for c in col_recs))
     re_sort_sections = []
     re_sort_specs = []
-    for section in parent_sections:
+    for section in sorted(parent_sections):    # (sorted: the order of a set of records is arbitrary)
       # Only iterates once for each section. Updated sort removes all columns being deleted.
       sort = json.loads(section.sortColRefs) if section.sortColRefs else []
       updated_sort = [col_spec for col_spec in sort
